@@ -23,6 +23,7 @@ RULE = ("Trees with NCName element / attribute names (ASCII and non-ASCII name c
         "exact text.  Non-trivial: some value contains < > & \" ' or a non-ASCII character, or a prefix is re-declared.")
 RULE += ('  A branch exported on its own (to_xml on an inner node, on its copy, on the node after removal) is a document of its own that declares every binding of the branch.')
 RULE += ('  Some nodes of a tree carry the same explicit id (ids are no part of the XML).')
+RULE += ('  A third of the text values are long (10-40 atoms) and dense in markup characters.')
 ASSUMPTIONS = [
     "namespace names are URIs (lxml refuses other strings: a parser precondition)",
     "two prefixes bound to one URI make the prefix of a qualified attribute unrecoverable: compared by expanded name then",
